@@ -51,6 +51,8 @@ def se_unit(name, file, qualname, cls, setup, post, loop_specs=None, inline=(), 
         st = State()
         res = {"unit": name, "target": f"{file}::{qualname}", "src_hash": repo.src_hash(fn), "kind": kind,
                "inlined": sorted(inline)}
+        if repo.renamed:
+            res["renamed_locals"] = {k: v for k, v in repo.renamed.items()}      # functions verified up to a renaming of local variables
         try:
             ctx = setup(E, st)
             if "loop_specs" in ctx:
